@@ -164,7 +164,7 @@ CHECKS = {
         "pkg": "c12", "level": "exploration",
         "manifest": {
             "text": "grammar-generated and coverage-guided byte streams served in-process over an in-memory connection; the harness parses the same stream independently and predicts, per frame, 'exactly one response of this kind' or 'answer or end with an error'; frames of length 0/1/2 are enumerated for every message code",
-            "note": "a total recording agent is served (mode A); the real server over shim+proxy is served with wait codes >= 40 only (mode B, response counting only); a body truncated at the end of stream may end service with or without an error (not fixed by the statement)",
+            "note": "a total recording agent is served (mode A); the real server over shim+proxy is served with wait codes >= 40 only (mode B, response counting only); a frame cut off by the end of stream (in the length prefix or in the body) must end service with an error",
             "technique": "property-based testing (rapid) + native fuzzing + enumeration of short frames; oracle = independent stream parser and per-frame response prediction",
         },
         "assumptions": ["golang.org/x/crypto/ssh/agent server produces the replies of standard requests", "allocation is measured with runtime.MemStats.TotalAlloc around the call (threshold 8 MiB)"],
